@@ -31,6 +31,7 @@ type Program struct {
 	ssaPkg map[string]*ssa.Package
 	cg     *callgraph.Graph
 	chaCG  *callgraph.Graph
+	mcg    *modCG
 	declOf map[*types.Func]*ast.FuncDecl
 	fileOf map[*ast.FuncDecl]*packages.Package
 }
